@@ -296,6 +296,16 @@ fn sym_case<A: Sx>(i: usize, out: &mut Out) {
             )
         });
     }
+    // secondary views of the same tables: symbol-level Display and u8::from(symbol)
+    out.stage = "Display / u8::from (symbol)";
+    if let Ok(Some(d)) = out.catch(|| a.display1()) {
+        out.check(d == ch.to_string(), || (format!("{n}/Display/differs-from-to_char"), format!("symbol {:?} formats as {:?}, its display character is {:?}", a, d, ch)));
+        let w = out.catch(|| format!("{:>3}|{:<2}|", a.display1().unwrap(), a.display1().unwrap()));
+        out.check(w.is_ok(), || (format!("{n}/Display/panics"), format!("{:?}", w)));
+    }
+    if let Ok(Some(b)) = out.catch(|| a.into_u8()) {
+        out.check(b == code, || (format!("{n}/u8-from-symbol/differs-from-to_bits"), format!("u8::from({:?}) = {b:#b}, to_bits() = {code:#b}", a)));
+    }
     if A::HAS_COMP {
         out.stage = "comp";
         match out.catch(|| a.comp1()) {
